@@ -12,14 +12,16 @@ import (
 )
 
 type Case struct {
-	Pkg          string   `json:"pkg"`
-	Func         string   `json:"func"`
-	Params       []int64  `json:"params"`
-	MaxPaths     int      `json:"max_paths,omitempty"`
-	MaxSteps     int      `json:"max_steps,omitempty"`
-	WitnessEvery int      `json:"witness_every,omitempty"`
-	MaxMapPerm   int      `json:"max_map_perm,omitempty"`
-	Reach        []string `json:"reach,omitempty"`
+	Pkg           string   `json:"pkg"`
+	Func          string   `json:"func"`
+	Params        []int64  `json:"params"`
+	MaxPaths      int      `json:"max_paths,omitempty"`
+	MaxSteps      int      `json:"max_steps,omitempty"`
+	WitnessEvery  int      `json:"witness_every,omitempty"`
+	MaxMapPerm    int      `json:"max_map_perm,omitempty"`
+	ByteEnum      bool     `json:"byte_enum,omitempty"`
+	OrderPolicies int      `json:"order_policies,omitempty"`
+	Reach         []string `json:"reach,omitempty"`
 }
 
 type Witness struct {
@@ -88,6 +90,8 @@ func (s *Session) Explore(c Case) *CaseReport {
 			} else {
 				ip.MaxSteps = 2_000_000
 			}
+			ip.NoByteEnum = !c.ByteEnum
+			ip.MapOrderPolicies = c.OrderPolicies
 			if c.MaxMapPerm > 0 {
 				ip.MaxMapPerm = c.MaxMapPerm
 			} else {
